@@ -385,7 +385,7 @@ pub fn run(ctx: &Ctx) -> Report {
         &format!("fills[{}]", ctx.variant),
         "config x optional clear x 1..2 fill_contiguous calls; rectangle of any position class (inside, over each edge combination, enclosing, disjoint, zero-sized, huge), stream length 0/1/<area/=area/>area/infinite; oracle: point k of the rectangle gets colour k iff k < L and the point is inside the display, everything else unchanged, pulls <= 2*area+64; non-trivial = rectangle clipped and L beyond the first visible point",
     );
-    let n = ctx.cases(200_000, 5_000_000);
+    let n = ctx.cases(350_000, 6_000_000);
     run_generated(&mut sec, ctx.seed, n, ctx.workers, || strategy(gen::ConfigMenu::all_transports()), check, sig);
     rep.sections.push(sec);
     // the 16-bit sections build their own crates (independent of this binary's profile): once per feature setting is enough
